@@ -65,6 +65,13 @@ def inst(ast, env):
     if k == "i":
         s = env.lookup(ast[1])
         return s.nz[ast[2]] if s.numel() > 1 else s
+    if k == "pwg":  # piecewise constant on a given grid: vals[i] on [knots[i], knots[i+1]), vals[N] from knots[N] on
+        vals, knots = ast[1], ast[2]
+        t = env.stage.t
+        eps = 1e-9 * max(1.0, abs(knots[-1] - knots[0]))
+        idx = ca.low(ca.DM(knots), t + eps)
+        inner = ca.MX(ca.DM(vals[:-1]))[idx]
+        return ca.if_else(t >= knots[-1] - eps, vals[-1], inner)
     if k == "pw":  # piecewise constant in time: value of the interval [t0 + i dt, t0 + (i+1) dt) that contains t
         vals, t0, dt = ast[1], ast[2], ast[3]
         return ca.MX(ca.DM(vals))[ca.floor((env.stage.t - t0) / dt)]
